@@ -64,11 +64,6 @@ package stdlib_contracts
 //@ pure
 //@ ensures result == dsha(data)
 
-//@ package github.com/nspcc-dev/neo-go/pkg/vm/stackitem
-//@ func (Type).IsValid
-//@ assumed
-//@ pure
-
 // the decoded-key cache: an LRU map; its operations do not write memory the contracts talk about
 //@ package github.com/hashicorp/golang-lru/v2
 //@ func (*Cache[string, *github.com/nspcc-dev/neo-go/pkg/crypto/keys.PublicKey]).Add[string *github.com/nspcc-dev/neo-go/pkg/crypto/keys.PublicKey]
